@@ -3,12 +3,13 @@ from lib import driver
 from lib.rec import Rec
 
 LEVEL = "exploration"
-RULE = ("G5 universes (list + local/server trees) and G7 histories [calls, create(entity), calls, ...] (<=12 steps, entities created through "
-        "the real WriteToPaths). Each step runs, on FindInList, FindInPaths(local, server) and FindInAll: exists(s) vs bool(find(s)), find_one(s) "
-        "vs first of find(s) (Sid and string forms, empty results), as_sid=True vs as_sid=False; and on concrete Sids (existing or not): "
-        "exists() vs R7 membership, children() vs R7 {e : e.parent == sid}, siblings() vs R7 {e : e.parent == sid.parent}, leaf => no children, "
-        "every file-system result has an existing parent. After each create the model is updated and everything is asked again. "
-        "Non-trivial = distinct (universe, step, call) whose find result is non-empty, or a Sid call on an existing entity.")
+RULE = ('G5 universes (list + local/server trees) and G7 histories [calls, create(entity), calls, ...] (<=12 steps, entities created through the '
+        'real WriteToPaths). Each step runs, on FindInList, FindInPaths(local, server) and FindInAll: exists(s) vs bool(find(s)), find_one(s) vs '
+        'first of find(s) (Sid and string forms, empty results), as_sid=True vs as_sid=False; and on concrete Sids (existing or not): exists() '
+        'vs R7 membership, children() vs R7 {e : e.parent == sid}, siblings() vs R7 {e : e.parent == sid.parent}, leaf => no children, every '
+        'file-system result has an existing parent. A quarter of the searches is repeated with the search handed over as a Sid OBJECT (typed or '
+        'not). After each create the model is updated and everything is asked again. Non-trivial = distinct (universe, step, call) whose find '
+        'result is non-empty, or a Sid call on an existing entity.')
 ASSUME = ["R7 (lib/existmodel) gives the existing set: path-backed levels from the tree, constant-backed levels from the live configuration's constants",
           "parent existence is not judged for levels that have neither a path template nor constants (reported as 'unbacked level')",
           "siblings of a one-field (root) Sid are not judged"]
